@@ -5,11 +5,10 @@ Model: `Model/Recovery.lean`, a macro-step machine over GENERATED facts (which s
 states a received ping resets from, where failure events land, whether the pump survives exceptions).  Its record space
 is finite, so one-step facts are kernel evaluations over the WHOLE space, lifted to fault scripts of any length by induction.
 The FULL statement ("after ANY finite fault pattern, a healthy network leads back to CONNECTED, and the pump never dies")
-is false on the current tree: finding D8b (a discovery that coincides with a blackout parks the manager in
-ERROR_SPA_NOT_FOUND for good; D8a - a reset inside `_connect` killing the pump - was repaired by a `fix:` commit).  So:
-  * `recovery_partial` proves recovery from every coherent record outside the decidable set `Stuck`;
-  * `stuck_never_recovers` shows `Stuck` is exactly the obstruction (tight), `stuck_reachable` that such a record is reached by a
-    concrete fault script (the replay of the finding); `pump_immortal` is the full statement for the pump;
+holds on the current tree (`recovery_after_every_script`, `pump_immortal`) since the `fix:` commits for D8a (a reset inside
+`_connect` killed the pump) and D8b (a discovery during a blackout parked the manager in ERROR_SPA_NOT_FOUND for good);
+  * `Stuck` (nothing can move the manager any more) is kept as the decidable obstruction: `never_stuck` shows no coherent record
+    is stuck, `stuck_never_recovers` that the notion is tight;
   * the time bound is the sum of bounds proved elsewhere (C06, C15, C01), as a numeral from the generated timing tables.
 -/
 import GeckoModel.Model.Recovery
@@ -62,14 +61,32 @@ theorem stuck_never_recovers (is : List In) (h : ∀ i ∈ is, i ∈ [In.ping tr
       rcases hi with rfl | rfl <;> decide
     exact ih (fun j hj => h j (by simp [hj])) (step s i) (step_mem_allR s hm i hall) h1.1
 
-/-- a stuck record is reachable (the replay of finding D8b): a blackout during the first discovery parks the manager
-in ERROR_SPA_NOT_FOUND, which nothing leaves -/
-theorem stuck_reachable :
-    Stuck (run init [.pumpTurn false]) = true ∧ (run init [.pumpTurn false]).st = "ERROR_SPA_NOT_FOUND" := by
-  decide +kernel
+/-- **no coherent record with a live pump is stuck** (it holds since the `fix:` commit that lets the sequence pump search again
+after a spa was not found - finding D8b; before it, `run init [.pumpTurn false]` was stuck in ERROR_SPA_NOT_FOUND) -/
+theorem never_stuck : ∀ s ∈ allR, Coherent s = true → s.pump = true → Stuck s = false := by decide +kernel
 
-/-- the only stuck records a fault script can reach are those parked in the spa-not-found state -/
-theorem stuck_only_not_found : ∀ s ∈ allR, Coherent s = true → s.pump = true → Stuck s = true → s.st = "ERROR_SPA_NOT_FOUND" := by
+/-- **recovery, FULL statement**: from EVERY coherent record (hence after ANY fault script: packet loss, blackouts, RF-error
+periods, user resets at any moment incl. inside a discovery or inside `_connect`), a healthy network - the next ping answered,
+two pump turns - leads to CONNECTED with a facade -/
+theorem recovery_full : ∀ s ∈ allR, Coherent s = true → s.pump = true → connected (run s healthySeq) = true := by decide +kernel
+
+theorem recovery_after_every_script (is : List In) (h : ∀ i ∈ is, i ∈ allIn) :
+    connected (run (run init is) healthySeq) = true := by
+  have hc := reachable_coherent is h
+  have key : ∀ (is : List In), (∀ i ∈ is, i ∈ allIn) → ∀ s ∈ allR, s.pump = true → (run s is).pump = true := by
+    intro is
+    induction is with
+    | nil => intro _ s _ hp; exact hp
+    | cons i is ih =>
+      intro h s hs hp
+      have hi := h i (by simp)
+      have := (by decide +kernel : ∀ s ∈ allR, s.pump = true → ∀ i ∈ allIn, (step s i).pump = true)
+      exact ih (fun j hj => h j (by simp [hj])) (step s i) (step_mem_allR s hs i hi) (this s hs hp i hi)
+  exact recovery_full _ hc.1 hc.2 (key is h init (by decide +kernel) rfl)
+
+/-- a discovery that coincides with a blackout is retried: the spa-not-found state is left by the pump itself -/
+theorem not_found_is_retried :
+    (run init [.pumpTurn false]).st = "IDLE" ∧ connected (run init [.pumpTurn false, .pumpTurn false, .pumpTurn true]) = true := by
   decide +kernel
 
 /-- one step never kills the pump (since the `fix:` commit that makes `_sequence_pump` survive exceptions; the generated
